@@ -78,7 +78,7 @@ class desc_part:
 
 
 def DOC_DESCRIPTION(description, indent):
-    return ite(description == "", "", indent + "/**\n" + indent + " * " + DESC(description, indent) + indent + " */\n")
+    return (("") if (description == "") else (indent + "/**\n" + indent + " * " + DESC(description, indent) + indent + " */\n"))
 
 
 @contract(_G + "_create_sds_docstring_description", props=["C13", "C02", "C01"])
@@ -100,7 +100,7 @@ def LIT(v):
     if isinstance(v, str):
         return '"' + v + '"'
     if isinstance(v, bool):
-        return ite(v, "true", "false")
+        return (("true") if (v) else ("false"))
     if v is None:
         return "null"
     return str(v)
@@ -124,8 +124,7 @@ def R(nc, td):
     kind = td["kind"]
     if kind == "NamedType":
         name = td["name"]
-        return ite(name == "int", "Int", ite(name == "str", "String", ite(name == "bool", "Boolean",
-               ite(name == "float", "Float", ite(name == "None", NONE_NAME, name)))))
+        return (("Int") if (name == "int") else (("String") if (name == "str") else (("Boolean") if (name == "bool") else (("Float") if (name == "float") else ((NONE_NAME) if (name == "None") else (name))))))
     if kind == "FinalType":
         return R(nc, td["type"])
     if kind == "CallableType":
@@ -139,8 +138,8 @@ def R(nc, td):
         return "(" + ", ".join(params) + ") -> " + CONV("result_1", nc, False) + ": " + R(nc, rt)
     if kind == "SetType" or kind == "ListType" or kind == "NamedSequenceType":
         types = [R(nc, t) for t in td["types"]]
-        name = ite(kind == "NamedSequenceType", td["name"], kind[0:-4])
-        return ite(len(types) > 0, name + "<" + ", ".join(types) + ">", name + "<Any>")
+        name = ((td["name"]) if (kind == "NamedSequenceType") else (kind[0:-4]))
+        return ((name + "<" + ", ".join(types) + ">") if (len(types) > 0) else (name + "<Any>"))
     if kind == "UnknownType":
         return "unknown"
     if kind == "UnionType":
@@ -164,17 +163,15 @@ def RU(nc, td):
     lits = [t for t in members if t["kind"] == "LiteralType"]
     others = [t for t in members if t["kind"] != "LiteralType"]
     has_named = any(IS_NAMEDLIKE(t) for t in members)
-    merged = ite(len(lits) >= 2,
-                 others + [{"kind": "LiteralType", "literals": [v for t in lits for v in t["literals"]]}],
-                 members)
+    merged = ((others + [{"kind": "LiteralType", "literals": [v for t in lits for v in t["literals"]]}]) if (len(lits) >= 2) else (members))
     if len(merged) == 2 and len(lits) >= 1 and (IS_NONE_TD(merged[0]) or IS_NONE_TD(merged[1])):
-        lit = ite(merged[0]["kind"] == "LiteralType", merged[0], merged[1])
+        lit = ((merged[0]) if (merged[0]["kind"] == "LiteralType") else (merged[1]))
         return R(nc, {"kind": "LiteralType", "literals": lit["literals"] + [None]})
     rendered = sorted(list({R(nc, t) for t in merged}))
     if len(rendered) == 0:
         return ""
     if len(rendered) == 2 and NONE_NAME in rendered and has_named:
-        return ite(rendered[0] == NONE_NAME, rendered[1], rendered[0]) + "?"
+        return ((rendered[1]) if (rendered[0] == NONE_NAME) else (rendered[0])) + "?"
     if len(rendered) == 1:
         return rendered[0]
     if NONE_NAME in rendered and rendered[-1] != NONE_NAME:
@@ -199,13 +196,11 @@ def TF(td):
     if kind == "FinalType":
         return TF(td["type"])
     if kind == "CallableType":
-        return TFS(td["parameter_types"]) | ite(td["return_type"]["kind"] == "TupleType", TFS(td["return_type"]["types"]),
-                                                ite(td["return_type"]["kind"] == "NamedType" and td["return_type"]["name"] == "None",
-                                                    set(), TF(td["return_type"])))
+        return TFS(td["parameter_types"]) | ((TFS(td["return_type"]["types"])) if (td["return_type"]["kind"] == "TupleType") else ((set()) if (td["return_type"]["kind"] == "NamedType" and td["return_type"]["name"] == "None") else (TF(td["return_type"]))))
     if kind == "SetType":
-        return TFS(td["types"]) | {"no set support"} | ite(len(td["types"]) >= 2, {"Set"}, set())
+        return TFS(td["types"]) | {"no set support"} | (({"Set"}) if (len(td["types"]) >= 2) else (set()))
     if kind == "ListType":
-        return TFS(td["types"]) | ite(len(td["types"]) >= 2, {"List"}, set())
+        return TFS(td["types"]) | (({"List"}) if (len(td["types"]) >= 2) else (set()))
     if kind == "NamedSequenceType":
         return TFS(td["types"])
     if kind == "UnknownType":
@@ -245,14 +240,12 @@ def IMPS(gen, td):
     kind = td["kind"]
     if kind == "NamedType":
         name = td["name"]
-        return ite(name == "int" or name == "str" or name == "bool" or name == "float" or name == "None",
-                   set(), IMP1(gen, td["qname"]))
+        return ((set()) if (name == "int" or name == "str" or name == "bool" or name == "float" or name == "None") else (IMP1(gen, td["qname"])))
     if kind == "FinalType":
         return IMPS(gen, td["type"])
     if kind == "CallableType":
         rt = td["return_type"]
-        return IMPSS(gen, td["parameter_types"]) | ite(rt["kind"] == "TupleType", IMPSS(gen, rt["types"]),
-                                                        ite(rt["kind"] == "NamedType" and rt["name"] == "None", set(), IMPS(gen, rt)))
+        return IMPSS(gen, td["parameter_types"]) | ((IMPSS(gen, rt["types"])) if (rt["kind"] == "TupleType") else ((set()) if (rt["kind"] == "NamedType" and rt["name"] == "None") else (IMPS(gen, rt))))
     if kind == "SetType" or kind == "ListType" or kind == "NamedSequenceType" or kind == "TupleType":
         return IMPSS(gen, td["types"])
     if kind == "UnionType":
@@ -304,6 +297,11 @@ class create_type_string:
     safety = False
     unfold = ["R", "TF"]
 
+    def requires_quick(self, type_data):
+        # quick tier: every kind except unions is proved; the union branch (literal merging, de-duplication,
+        # sorting, nullable shorthand) is proved in the thorough tier and enumerated natively in both tiers
+        return type_data is None or type_data["kind"] != "UnionType"
+
     @clause(props=["C05", "C02"])
     def ensures_render(self, type_data, result):
         return result == R(self.naming_convention, type_data)
@@ -323,3 +321,49 @@ class create_type_string:
     @clause(props=["C11"], mode="use")
     def ensures_outside_use(self, type_data):
         return self.classes_outside_package == old(self.classes_outside_package) | OUTS(self, type_data)
+
+
+# ------------------------------------------------------------------------------------------------ native case generators
+def _mk_gen(convert, module_id="pkg/mod"):
+    """A real generator object on an (almost) empty API, as __call__ sets it up for one module."""
+    from safeds_stubgen.api_analyzer import API
+    from safeds_stubgen.stubs_generator import StubsStringGenerator
+    g = StubsStringGenerator(API("dist", "pkg", "1"), convert)
+    g.module_id = module_id
+    g.reexport_module_id = ""
+    g._current_todo_msgs = set()
+    return g
+
+
+def _type_terms(depth):
+    """Type values over a small alphabet, all constructors, up to the given depth."""
+    from safeds_stubgen.api_analyzer import _types as T
+    leaves = [T.NamedType("int", "builtins.int"), T.NamedType("str", "builtins.str"), T.NamedType("None", "builtins.None"),
+              T.NamedType("A", "pkg.mod.A"), T.NamedType("my_cls", "other.m.my_cls"), T.LiteralType(["a"]), T.LiteralType([1, True]),
+              T.TypeVarType("my_t"), T.UnknownType()]
+    if depth == 0:
+        return leaves
+    sub = _type_terms(depth - 1)
+    small = sub[:6]
+    out = list(leaves)
+    for a in small:
+        out += [T.ListType([a]), T.SetType([a]), T.TupleType([a]), T.FinalType(a), T.NamedSequenceType("Gen", "pkg.mod.Gen", [a]),
+                T.CallableType([a], a), T.TypeVarType("T", a)]
+        for b in small:
+            out += [T.UnionType([a, b]), T.DictType(a, b), T.ListType([a, b]), T.CallableType([a, b], T.TupleType([a, b]))]
+    for a in small[:5]:
+        for b in small[:5]:
+            for c in small[:6]:
+                out.append(T.UnionType([a, b, c]))
+    out += [T.ListType([]), T.SetType([]), T.TupleType([]), T.UnionType([]), T.CallableType([], T.NamedType("None", "builtins.None"))]
+    return out
+
+
+def _type_string_cases(seed, tier):
+    for conv in (False, True):
+        for t in _type_terms(1 if tier == "quick" else 2):
+            yield {"self": _mk_gen(conv), "kwargs": {"type_data": t.to_dict()}}
+        yield {"self": _mk_gen(conv), "kwargs": {"type_data": None}}
+
+
+create_type_string.native_cases = staticmethod(_type_string_cases)
